@@ -1,4 +1,4 @@
 SPECIFICATION Spec
-CONSTANTS CmaxI = 129  EminNeg = 4  Emax = 4  Family = "root"
+CONSTANTS CmaxI = 129  EminNeg = 3  Emax = 3  Family = "root"
 INVARIANTS RootsExact
 CHECK_DEADLOCK FALSE
